@@ -496,7 +496,6 @@ func TrackerWF(t *SessionTracker) bool {
 
 //@ func readSearchKeyWithAtom(criteria *imap.SearchCriteria, dec *imapwire.Decoder, key string) (err error)
 //@   props C02:post C19:post
-//@   requires criteria != nil && imap.NoSelfAliasing(criteria)
 //@   ensures __called("readSearchKey") && __failed("readSearchKey") ==> err != nil
 //@   ensures len(criteria.NotFlag) >= old(len(criteria.NotFlag)) && len(criteria.Flag) >= old(len(criteria.Flag))
 
